@@ -69,11 +69,15 @@ pub fn run(f: &[&str]) -> String {
             }
             if let Ok(v) = &base {
                 // IntoDeserializer for Value / Map: the same as from_value
+                // (compared with from_value itself; with the text route only outside arbitrary_precision, where from_value::<Value> re-spells
+                // number literals: known finding F19, decided by C16)
+                let fv = show(&serde_json::from_value::<Value>(v.clone()));
+                let ap = cfg!(feature = "arbitrary_precision");
                 let a = Value::deserialize(v.clone().into_deserializer()).map_err(|e: serde_json::Error| e);
-                if show(&a) != b { diffs.push("IntoDeserializer-Value"); }
+                if show(&a) != fv || (!ap && fv != b) { diffs.push("IntoDeserializer-Value"); }
                 if let Value::Object(o) = v {
                     let a = Value::deserialize(o.clone().into_deserializer());
-                    if show(&a) != b { diffs.push("IntoDeserializer-Map"); }
+                    if show(&a) != fv { diffs.push("IntoDeserializer-Map"); }
                     let c: Value = o.clone().into_iter().collect();
                     if &c != v { diffs.push("FromIterator-pairs"); }
                 }
